@@ -2,14 +2,123 @@ package main
 
 import (
 	"fmt"
+	"os"
+	"path/filepath"
+	"regexp"
+	"strings"
+	"time"
 
 	"verif/sim/core"
+	"verif/sim/instrument"
 )
 
-func makeOverlay(tmp string) (string, error) { return "", fmt.Errorf("not built yet") }
-
-func raceFound(tmp, bin string, part partCfg, tier string, seed uint64, o workerOut) []core.Found {
-	return nil
+func makeOverlay(tmp string) (string, error) {
+	dir := filepath.Join(tmp, "overlay")
+	if err := os.MkdirAll(dir, 0o755); err != nil {
+		return "", err
+	}
+	return instrument.MakeOverlay("/repo/v2/drivers/midicatdrv", dir)
 }
 
-func replayRace(tmp, bin string, part partCfg, rf core.ReplayFile, abs string) int { return 2 }
+var reRaceFunc = regexp.MustCompile(`(?m)^\s+(gitlab\.com/gomidi/midi/v2[^\s(]*)\(`)
+
+// raceKey names the two library functions whose accesses conflict.
+func raceKey(report string) string {
+	i := strings.Index(report, "WARNING: DATA RACE")
+	if i < 0 {
+		return "unknown"
+	}
+	rep := report[i:]
+	blocks := strings.Split(rep, "\n\n")
+	var fs []string
+	for _, b := range blocks {
+		if !(strings.Contains(b, "Write at") || strings.Contains(b, "Read at") || strings.Contains(b, "Previous write at") || strings.Contains(b, "Previous read at")) {
+			continue
+		}
+		m := reRaceFunc.FindStringSubmatch(b)
+		f := "non-library-frame"
+		if m != nil {
+			f = m[1]
+			f = strings.TrimPrefix(f, "gitlab.com/gomidi/midi/v2/drivers/")
+		}
+		fs = append(fs, f)
+		if len(fs) == 2 {
+			break
+		}
+	}
+	return strings.Join(fs, " / ")
+}
+
+// raceFound turns a worker that the race detector stopped (exit code 66) into a violation:
+// the run that was in progress is read from the worker's progress file, re-executed alone
+// in a fresh process, and reported only if the race report appears again.
+func raceFound(tmp, bin string, part partCfg, tier string, seed uint64, o workerOut) []core.Found {
+	run := int64(-1)
+	if raw, err := os.ReadFile(o.progress); err == nil {
+		fmt.Sscanf(strings.TrimSpace(string(raw)), "%d", &run)
+	}
+	if run < 0 {
+		fatal2("race detector stopped a %s worker but the run in progress is unknown\n%s", part.Key, tail(o.stderr, 3000))
+	}
+	pcfg := part.asCfg()
+	again := runWorker(tmp, bin, core.Job{Property: part.Key, Tier: tier, Mode: "explore", Seed: seed, From: run, To: run + 1, Stride: 1, Worker: 77}, pcfg, 10*time.Minute)
+	if again.code != 66 {
+		fatal2("race report of %s run %d did not reproduce in a fresh process (code %d)\nfirst report:\n%s", part.Key, run, again.code, tail(o.stderr, 3000))
+	}
+	gen := runWorker(tmp, bin, core.Job{Property: part.Key, Tier: tier, Mode: "gen", Seed: seed, From: run, To: run + 1, Stride: 1, Worker: 78}, pcfg, 10*time.Minute)
+	if gen.res == nil || gen.res.Scenarios[run] == nil {
+		fatal2("could not regenerate the scenario of %s run %d: %v", part.Key, run, gen.err)
+	}
+	if !strings.Contains(again.stderr, "WARNING: DATA RACE") {
+		fatal2("%s run %d exits with the race detector's code but prints no report\n%s", part.Key, run, tail(again.stderr, 3000))
+	}
+	key := raceKey(again.stderr)
+	if !strings.Contains(again.stderr, "midicatdrv") {
+		fatal2("race report of %s run %d involves no frame of the instrumented package (harness race?)\n%s", part.Key, run, tail(again.stderr, 4000))
+	}
+	detail := "race detector report (replayed in a fresh process): " + core.Trunc(again.stderr[strings.Index(again.stderr, "WARNING: DATA RACE"):], 1800)
+	return []core.Found{{Violation: core.Violation{Clause: "data-race", Key: key, Detail: detail}, Seed: seed, Run: run, Scenario: gen.res.Scenarios[run]}}
+}
+
+func replayRace(tmp, bin string, part partCfg, rf core.ReplayFile, abs string) int {
+	ro := runWorker(tmp, bin, core.Job{Property: part.Key, Tier: "quick", Mode: "replay", Replay: abs, Worker: 99}, part.asCfg(), 10*time.Minute)
+	if ro.code == 66 && strings.Contains(ro.stderr, "WARNING: DATA RACE") {
+		fmt.Printf("  clause=data-race key=%s\n%s\n", raceKey(ro.stderr), core.Trunc(ro.stderr[strings.Index(ro.stderr, "WARNING: DATA RACE"):], 1500))
+		fmt.Printf("VIOLATION property=%s replay=%s\n", rf.Property, abs)
+		return 1
+	}
+	if ro.res == nil {
+		fatal2("replay failed to run: %v %s", ro.err, tail(ro.stderr, 2000))
+	}
+	fmt.Printf("replay of %s: no data race reported on this tree\n", abs)
+	return 0
+}
+
+// crashFound handles a worker that died from a panic in a goroutine the harness cannot
+// recover in (a library goroutine): the run in progress is re-executed alone and, if it
+// crashes again, reported as a violation.
+func crashFound(tmp, bin string, part partCfg, tier string, seed uint64, o workerOut) []core.Found {
+	run := int64(-1)
+	if raw, err := os.ReadFile(o.progress); err == nil {
+		fmt.Sscanf(strings.TrimSpace(string(raw)), "%d", &run)
+	}
+	if run < 0 {
+		return nil
+	}
+	pcfg := part.asCfg()
+	again := runWorker(tmp, bin, core.Job{Property: part.Key, Tier: tier, Mode: "explore", Seed: seed, From: run, To: run + 1, Stride: 1, Worker: 77}, pcfg, 10*time.Minute)
+	i := strings.Index(again.stderr, "panic: ")
+	if again.res != nil || i < 0 || !strings.Contains(again.stderr, "midi/v2") {
+		return nil
+	}
+	gen := runWorker(tmp, bin, core.Job{Property: part.Key, Tier: tier, Mode: "gen", Seed: seed, From: run, To: run + 1, Stride: 1, Worker: 78}, pcfg, 10*time.Minute)
+	if gen.res == nil || gen.res.Scenarios[run] == nil {
+		return nil
+	}
+	msg := again.stderr[i:]
+	line := msg
+	if j := strings.IndexByte(line, '\n'); j > 0 {
+		line = line[:j]
+	}
+	return []core.Found{{Violation: core.Violation{Clause: "crash", Key: core.Trunc(line, 60), Detail: "the process crashed in a library goroutine (replayed in a fresh process): " + core.Trunc(msg, 1500)}, Seed: seed, Run: run, Scenario: gen.res.Scenarios[run]}}
+}
